@@ -12,7 +12,13 @@ CONSTANTS
   AadSizes = {0, 20}
   AllBitsSizes = {}
   SigSearch = 1500
-  Families = {"jws", "jwe", "jwk"}
+  Families = {"jws", "jwe", "jwk", "values"}
+  ValSizes = {1, 2, 3, 4, 5, 6, 7, 8, 9, 10, 11, 12, 13, 14, 15, 16, 17, 32}
+  ValKms = {"dir"}
+  ValSigs = {"HS256"}
+  ValForms = {"compact"}
+  PayClasses = {"pattern"}
+  KeyVars = {"plain"}
   Deviation = "none"
 INVARIANT Emit
 CHECK_DEADLOCK FALSE
